@@ -9,12 +9,14 @@ ID = 'C19'
 LEVEL = 'proof'
 THEOREMS = [('DebInspector.Thm.C19', ['Props.C19.refines_dict', 'Props.C19.conventional_idem_table', 'Props.C19.depsFields_eq_policy',
                                       'Props.C19.specialCases_eq', 'Props.C19.normalize_eq_conventional', 'Props.C19.sound', 'Props.C19.soundT',
-                                      'Props.C19.conventional_idem', 'Props.C19.conventional_lower', 'Props.C19.conventional_upper', 'Props.C19.parseControlItems_ok'])]
+                                      'Props.C19.conventional_idem', 'Props.C19.conventional_lower', 'Props.C19.conventional_upper', 'Props.C19.parseControlItems_ok']),
+            ('DebInspector.Thm.C19M', ['Props.C19M.soundM', 'Props.C19M.first_addr', 'Props.C19M.phrase_words', 'Props.C19M.local_loop',
+                                       'Props.C19M.domain_run', 'Props.C19M.wf_parts'])]
 TRUSTED = [
     'Lean 4.33.0 kernel',
     'reading of the property as Props.C19.holdsOn / holdsOnT / holdsOnM (plain insertion-ordered dict keyed by lower-cased names; policy field list; conventional capitalisation)',
     'hand model of Debian822 / normalize_control_field_name / parse_control_fields, tied by correspondence; DEPS_FIELDS and special_cases regenerated from the source each run',
-    'str.lower / capitalize are ASCII in the model (field names are ASCII by policy); email.utils.parseaddr is modelled only on the maintainer grammar',
+    'str.lower / capitalize are ASCII in the model (field names are ASCII by policy); email.utils.parseaddr (standard library, not part of /repo) is modelled by hand in Model/Addr.lean for the first address of a header (phrases, comments, quoted strings, routes, domain literals; address groups are outside the model) and tied to CPython by an adversarial correspondence stream - modelled, not verified',
     'the text / file-object construction routes are observed against get_paragraph_data directly (two API routes compared on the implementation)',
     'translator harness/translate.py and this correspondence harness',
 ]
@@ -23,7 +25,7 @@ RULE = ('histories of <= 12 operations over 3 keys x 4 casings (all histories of
         'control paragraphs mixing relationship fields, Installed-Size and others in any ASCII case; maintainer names/addresses inside and outside the grammar. '
         'non-trivial = the history uses two casings of one key')
 TECHNIQUE = ('Lean 4 theorems: refinement of the mapping to a plain dict for an arbitrary lower function; typed fields of every paragraph with distinct names (soundT); DEPS_FIELDS = policy list and '
-             'normalisation tables by decide + executable spec on every observation + correspondence on operation histories')
+             'normalisation tables by decide; maintainer split proved through a model of email.utils.parseaddr (soundM) + executable spec on every observation + correspondence on operation histories and on adversarial maintainer strings')
 LEVEL_TEXT = ('Props.C19.refines_dict: for every construction route, every finite history of set/get/del/in/len/iter/to_dict and every lower function, '
               'the model of Debian822 returns exactly what a plain insertion-ordered dictionary driven by the same history with lower-cased keys returns '
               '(Lean 4, induction over the history). Tie theorems by decide over the regenerated tables: DEPS_FIELDS equals the policy relationship-field '
@@ -31,8 +33,11 @@ LEVEL_TEXT = ('Props.C19.refines_dict: for every construction route, every finit
               'Props.C19.soundT: for every control paragraph whose normalised names are distinct, whenever the model of parse_control_fields returns it returns one entry per field, in order, under the conventional capitalisation of its name - '
               'idempotent and independent of the case of the input for every name, not only the policy names (conventional_idem, conventional_lower, conventional_upper: by the ASCII case-map table and induction over the hyphen-separated words) - '
               'holding the parsed relationship for the policy relationship fields, the integer for Installed-Size and the raw string for every other field (parseControlItems_ok). '
-              'The maintainer split (parseaddr is not modelled beyond the grammar) and the text/file routes are decided by the executable specification on every implementation observation and by correspondence.')
-LEVEL_NOTE = ('Trusted: Lean kernel; axioms propext, Classical.choice, Quot.sound only; ASCII restriction of lower/capitalize; parseaddr modelled on the grammar only.')
+              'Props.C19M.soundM: for every name of single-spaced words of atom characters and dots and every dot-atom address with one @, the model of MaintainerField.from_value("name <address>") - strip, the model of email.utils.parseaddr '
+              '(phrase list, route address, addr-spec loop, domain), then dumps() - returns exactly that name, that address and the unchanged text (first_addr: the address parser returns (name, address) on that grammar, by induction over the words, the local atoms and the domain atoms). '
+              'The model of parseaddr is tied to CPython by correspondence on adversarial strings over the parser\'s special characters (comments, quotes, routes, domain literals, stray @ and dots); address groups are outside the model. '
+              'The text/file construction routes are decided by the executable specification on every implementation observation and by correspondence.')
+LEVEL_NOTE = ('Trusted: Lean kernel; axioms propext, Classical.choice, Quot.sound only; ASCII restriction of lower/capitalize; email.utils.parseaddr is standard-library code modelled by hand (Model/Addr.lean) and tied by correspondence, groups outside the model.')
 
 KEYS = ['depends', 'Depends', 'DEPENDS', 'dePends', 'x-y', 'X-Y', 'X-y', 'md5SUM', 'MD5sum', 'a', 'A']
 VALUES = ['1', 'two', '', 'a: b']
